@@ -1,5 +1,5 @@
 """C12 - `is` and `as` agree with the FHIR and System type hierarchies."""
-from lib import driver as D, machine as M
+from lib import driver as D, machine as M, nodetrace as NT
 
 MUTANTS = ["primitiveNoSpecialise", "isIgnoresNamespace"]
 
@@ -26,6 +26,10 @@ def run(ctx):
     keys = [(o["cs"]["kind"], o["src"]) for o in obs if o["out"]["k"] == "ok" and o["out"]["items"]]
     # programs of the whole abstract machine whose last step is one of this property's operations (lib/machine.py)
     verdicts = M.extend(ctx, verdicts, by_id)
+    # node-level trace validation (spec/FPNodeTrace.tla, law typeop): every is/as node inside the repository's own tests, the
+    # machine programs and a spread of the cases above is judged from the google/fhir descriptor of the item it was given
+    verdicts = NT.extend(ctx, verdicts, by_id, reruns=[
+        (binary, ["run", resources, NT.sample_cases(ctx, ctx.path("cases.ndjson"), 2500 if ctx.tier == "quick" else 15000), ctx.path("obs_traced.ndjson")])])
     return D.finish(ctx, verdicts, by_id, evaluations=len(obs),
                     rule="element cases: for every generated resource (as in C02) the first node of every message type and some choice-typed "
                          "nodes x {is, as} x {declared type, every ancestor, a sibling datatype and resource, the name in the other letter case, "
